@@ -12,7 +12,7 @@ LEVEL = ("theorems binomSf_mono_p, cp_coverage_lower / cp_coverage_upper (covera
          "every interval the implementation returns")
 ASSUMPTIONS = ["root finding is not modelled: each returned limit is certified exactly with slack delta = max(1e-9, 4*xtol)",
                "lower <= x/n <= upper (cl >= 1/2), monotonicity in x and nesting in cl are checked on the implementation, not proved"]
-CLS = [0.95, 0.9, 0.975, 0.5, 0.99, 0.8]
+CLS = [0.95, 0.9, 0.975, 0.5, 0.99, 0.8, 0.3, 0.05]
 ALTS = ["two-sided", "lower", "upper"]
 
 
